@@ -65,17 +65,13 @@ Section Math.
   Variable sf_default : pyval.
   Variable sf_value : schema.
 
-  Definition math_state (c : list (pyval * pyval)) (uc : list (pyval * pyval)) :=
-    (filter (fun d => negb (name_in d (removed_constants uc))) dvars,
-     dict_set (zs "user_constants") (PDict (kept_constants uc)) c).
-
   (* validate_math_config accepts EXACTLY WHEN: not both lists, only known function names, no unsuppressed
      override of a (not deleted) default, no variable/constant collision, and sample_from validates *)
-  Theorem math_rules_accept_iff : forall c uc out,
+  Theorem math_rules_accept_iff : forall c uc out dvars' c1 sup,
     cfg_get "user_constants" c = PDict uc ->
-    let dvars' := fst (math_state c uc) in
-    let c1 := snd (math_state c uc) in
-    let sup := truthy (cfg_get "suppress_warnings" c1) in
+    dvars' = filter (fun d => negb (name_in d (removed_constants uc))) dvars ->
+    c1 = dict_set (zs "user_constants") (PDict (kept_constants uc)) c ->
+    sup = truthy (cfg_get "suppress_warnings" c1) ->
     (math_rules orc dfuncs dvars sf_default sf_value (PDict c) = Ret out <->
      whitelist_blacklist_ok dfuncs (cfg_get "blacklist" c) (cfg_get "whitelist" c) = true
      /\ override_ok sup (cfg_get "variables" c1) dvars' = true
@@ -88,25 +84,25 @@ Section Math.
                             (cfg_get "sample_from" c1) = Ret sf
                    /\ out = PDict (dict_set (zs "sample_from") sf c1)).
   Proof.
-    intros c uc out Huc dvars' c1 sup. unfold math_rules. rewrite Huc.
-    fold dvars' c1. unfold math_state in *. simpl in dvars', c1. fold sup.
-    destruct (whitelist_blacklist_ok dfuncs (cfg_get "blacklist" c) (cfg_get "whitelist" c)) eqn:W; simpl.
-    2: { split; [discriminate | intros [H _]; discriminate]. }
-    destruct (override_ok sup (cfg_get "variables" c1) dvars') eqn:O1; simpl.
-    2: { split; [discriminate | intros [_ [H _]]; discriminate]. }
-    destruct (override_ok sup (cfg_get "numbered_vars" c1) dvars') eqn:O2; simpl.
-    2: { split; [discriminate | intros [_ [_ [H _]]]; discriminate]. }
-    destruct (override_ok sup (cfg_get "user_constants" c1) dvars') eqn:O3; simpl.
-    2: { split; [discriminate | intros [_ [_ [_ [H _]]]]; discriminate]. }
-    destruct (override_ok sup (cfg_get "user_functions" c1) dfuncs) eqn:O4; simpl.
-    2: { split; [discriminate | intros [_ [_ [_ [_ [H _]]]]]; discriminate]. }
-    destruct (no_collision (cfg_get "variables" c1) (cfg_get "user_constants" c1)) eqn:N; simpl.
-    2: { split; [discriminate | intros [_ [_ [_ [_ [_ [H _]]]]]]; discriminate]. }
+    intros c uc out dvars' c1 sup Huc Hd Hc Hs. unfold math_rules. rewrite Huc. cbv zeta.
+    rewrite <- Hd, <- Hc, <- Hs.
+    destruct (whitelist_blacklist_ok dfuncs (cfg_get "blacklist" c) (cfg_get "whitelist" c)) eqn:W; cbn [negb].
+    2: { split. intro H0. inversion H0. intros [H0 _]. discriminate H0. }
+    destruct (override_ok sup (cfg_get "variables" c1) dvars') eqn:O1; cbn [negb andb].
+    2: { split. intro H0. inversion H0. intros [_ [H0 _]]. discriminate H0. }
+    destruct (override_ok sup (cfg_get "numbered_vars" c1) dvars') eqn:O2; cbn [negb andb].
+    2: { split. intro H0. inversion H0. intros [_ [_ [H0 _]]]. discriminate H0. }
+    destruct (override_ok sup (cfg_get "user_constants" c1) dvars') eqn:O3; cbn [negb andb].
+    2: { split. intro H0. inversion H0. intros [_ [_ [_ [H0 _]]]]. discriminate H0. }
+    destruct (override_ok sup (cfg_get "user_functions" c1) dfuncs) eqn:O4; cbn [negb andb].
+    2: { split. intro H0. inversion H0. intros [_ [_ [_ [_ [H0 _]]]]]. discriminate H0. }
+    destruct (no_collision (cfg_get "variables" c1) (cfg_get "user_constants" c1)) eqn:N; cbn [negb].
+    2: { split. intro H0. inversion H0. intros [_ [_ [_ [_ [_ [H0 _]]]]]]. discriminate H0. }
     destruct (validate orc _ (cfg_get "sample_from" c1)) as [sf|e] eqn:S.
     - split.
       + intro H. inversion H. repeat split; try reflexivity. exists sf. split; reflexivity.
-      + intros [_ [_ [_ [_ [_ [_ [sf' [Hs Ho]]]]]]]]. inversion Hs; subst. reflexivity.
-    - split; [discriminate|]. intros [_ [_ [_ [_ [_ [_ [sf' [Hs _]]]]]]]]. discriminate.
+      + intros [_ [_ [_ [_ [_ [_ [sf' [Hs' Ho]]]]]]]]. inversion Hs'; subst. reflexivity.
+    - split. intro H0. inversion H0. intros [_ [_ [_ [_ [_ [_ [sf' [Hs' _]]]]]]]]. discriminate Hs'.
   Qed.
 
   (* no simultaneous whitelist and blacklist *)
@@ -244,6 +240,7 @@ Corollary same_delimiter_refused : forall cl c tags sc,
   py_eqb (cfg_get "delimiter" sc) (cfg_get "delimiter" c) = true ->
   single_list_rules cl (PDict c) = Raise EConfig.
 Proof.
-  intros cl c tags sc Hs Ht He. unfold single_list_rules. rewrite Hs. simpl delimiter_chain. rewrite Ht.
-  simpl. unfold name_in at 1. simpl. rewrite He. reflexivity.
+  intros cl c tags sc Hs Ht He. unfold single_list_rules. rewrite Hs.
+  change 64%nat with (S 63). cbn [delimiter_chain]. rewrite Ht.
+  cbn [delimiters_distinct name_in existsb]. rewrite He. reflexivity.
 Qed.
